@@ -109,6 +109,12 @@ func childMain() {
 		s := secrets()
 		distinct := string(s[0]) != string(s[1]) && string(s[0]) != string(s[2]) && string(s[1]) != string(s[2])
 		// P̂: a deployment must not end up with two kinds of token under one secret unless its ini file says so
+		// P̂: a secret the ini file sets is in force exactly as written (whatever its length)
+		for i, nm := range []string{"jwt_secret", "refresh_jwt_secret", "email_jwt_secret"} {
+			if v, ok := set[nm]; ok && string(s[i]) != v {
+				o.fail("config:secret-not-as-configured", fmt.Sprintf("ini %q sets %s to %q (%d bytes) but api.InitConfig() leaves %q (%d bytes)", spec, strings.ToUpper(nm), v, len(v), s[i], len(s[i])))
+			}
+		}
 		if !distinct {
 			saysSo := false
 			names := []string{"jwt_secret", "refresh_jwt_secret", "email_jwt_secret"}
@@ -252,6 +258,12 @@ func generateInis() {
 		"inline:refresh_jwt_secret="+hs("prod_secret_3"),
 		"inline:jwt_secret="+hs("prod_secret_1")+";refresh_jwt_secret="+hs("prod_secret_3")+";email_jwt_secret="+hs("prod_secret_2"),
 		"inline:jwt_token_expire_ts="+hs("3600")+";refresh_jwt_token_expire_ts="+hs("7200")+";guest="+hs("nobody")+";refresh_jwt_claim_type="+hs("rt"))
+	// long secrets: longer than one SHA-256 block (64 bytes), sharing a prefix of 72 / 64 / 63 characters and differing after it
+	for _, n := range []int{72, 64, 63} {
+		prefix := strings.Repeat("0123456789abcdef", 5)[:n]
+		specs = append(specs, "inline:jwt_secret="+hs(prefix+"-access-key")+";refresh_jwt_secret="+hs(prefix+"-refresh-key")+";email_jwt_secret="+hs(prefix+"-email-key"))
+	}
+	specs = append(specs, "inline:jwt_secret="+hs(strings.Repeat("k", 200))+";refresh_jwt_secret="+hs(strings.Repeat("k", 201)))
 	for _, s := range specs {
 		runChild(s, nil)
 	}
